@@ -125,22 +125,32 @@ func (h *Heap[T]) Pop() T {
 // Delete removes an element from the heap. It returns false in case the element does not exists.
 // After removal, it reorders the heap structure based on the heap-specific rules.
 func (h *Heap[T]) Delete(val T) (bool, error) {
-	len := h.Size()
+	// Size, position of the value and removal belong to one critical section:
+	// with the lock released in between, a concurrent Push/Pop/Clear/Delete
+	// made the snapshot stale (wrong victim, lost elements, index out of range).
+	h.mu.Lock()
+	defer h.mu.Unlock()
+
+	len := h.size()
 	if len == 0 {
 		return false, fmt.Errorf("heap empty")
 	}
 
-	idx, ok := h.getIndex(h.data, val)
+	idx, ok := -1, false
+	for i := 0; i < len; i++ {
+		if h.data[i] == val {
+			idx, ok = i, true
+			break
+		}
+	}
 	if !ok {
 		return false, fmt.Errorf("value not found in the heap: %v", val)
 	}
 
-	h.mu.Lock()
 	swap(h.data, idx, len-1)
 	h.data = h.data[:len-1]
 
 	h.moveDown(len-1, 0)
-	h.mu.Unlock()
 
 	return true, nil
 }
